@@ -72,8 +72,11 @@ def make_cases(rng, tier):
         cfs = rng.randrange(6) == 0
         c = {"i": k, "o": ob, "e": eb, "order": rng.choice(["out-first", "interleave", "err-first"]), "exit": rng.choice([0, 0, 1, 3, 255, 1009, 1015, 1006, 1011]),
              "tail": rng.choice([0, 0, 0, 30]), "stdin": stdin_lines, "cfs": cfs,
-             "stdin_mode": rng.choice(["close", "close", "open"]) if not stdin_lines else "close",
+             "stdin_mode": rng.choice(["close", "close", "open"]) if not stdin_lines else rng.choice(["close", "dataeof"]),
              "read": rng.choice([1 << 16, 4096, 512, 100]), "pause_us": rng.choice([0, 0, 200, 2000]) if k >= 6 else 2000}
+        if k in (7, 9, 11) and not stdin_lines:                # make sure the data-with-EOF reader is exercised in every run
+            stdin_lines = [b"x" * (k + 1), b"yy", b""]
+            c["stdin"], c["stdin_mode"] = stdin_lines, "dataeof"
         if c["stdin_mode"] == "open" and stdin_lines:
             c["stdin_mode"] = "close"
         total = sum(x[0] for x in ob) * 9 + sum(x[0] for x in eb) * 5
@@ -120,7 +123,7 @@ def check(run):
     vlib.judge_stream(run, "children", IMPORTS, "case", shown, res, lambda c, r: term(cases[c["i"]], r), CLAUSES, (),
                       "real child processes under CmdShell: 0-2 bursts per descriptor of 0 / 1 / 10 / 1000 / 7300 (one pipe buffer) / 9000 / 20000 (three "
                       "buffers) sequence-numbered lines, stdout/stderr first or interleaved, optional pauses, stdout closed before late stderr output, exit "
-                      "status 0/1/3/255 or death by SIGKILL/SIGTERM/SIGABRT/SIGSEGV, immediately or 30 ms after the last write, input echoed or left open and idle while the command exits; consumer "
+                      "input delivered through a pipe or by a reader which returns its last bytes together with EOF; status 0/1/3/255 or death by SIGKILL/SIGTERM/SIGABRT/SIGSEGV, immediately or 30 ms after the last write, input echoed or left open and idle while the command exits; consumer "
                       "reading 100 B - 64 KiB at a time with pauses 0 - 2 ms; the first six cases reproduce the repaired truncation (big burst, immediate "
                       "exit, slow reader); timing is real: a loss seen is real, no loss seen proves nothing more than the run",
                       key_fn=lambda c: json.dumps(c, sort_keys=True), shard=6)
